@@ -13,7 +13,12 @@ Server  : `samply/src/main.rs:210-238` (every map value goes to `add_known_libra
           `wholesym/src/helper.rs:311-335` (`add_known_lib`), `:444-470` (`fill_in_library_info_details`),
           `:476-692` (`get_candidate_paths_for_debug_file`), `:728-800` (`get_candidate_paths_for_binary`),
           `samply-symbols/src/shared.rs:308-337` (`LibraryInfo::absorb`).
-Converter: `samply/src/linux_shared/converter.rs:1308-1570, 1597-1613` (`add_module_to_process` cases 2 and 4).
+Converter: `samply/src/linux_shared/converter.rs:1308-1570, 1572-1613` (`add_module_to_process` cases 2 and 4 with
+          and without a build id in the recording, `code_id_matches`, `library_info_with_object`), `:775-786` (where
+          the recording's build id comes from), `samply-symbols/src/debugid_util.rs:69-100`.
+Lookup  : `samply-symbols/src/lib.rs:330-361` (the first candidate that loads and has the requested debug id).
+Keys    : `library_info.rs:48-54` (writer literals), `profile_json_preparse.rs:32-42` + serde_derive's
+          `RenameRule::CamelCase` (reader).
 
 Text is modelled as lists of byte values (`Str = List Nat`, every element `< 256` for real strings): the
 Rust code indexes strings by bytes (`s.len()`, `s.get(..8)`, `&string[32..]`), and every place where it looks
